@@ -38,7 +38,9 @@ KINDS = ["smh_f64_fnv", "smh_f32_fnv", "smh_f64_no", "smh_f32_no", "smh2_u64_fnv
          "ss_u16", "ss_u32", "dens_f32_fnv", "dens_f64_fnv", "rev_f32_fnv", "rev_f64_fnv", "ord2_fnv",
          "pmh2", "pmh3", "pmh3a", "pmh3asha",
          # identifiers that are not plain integers: references to owned strings, a small struct with padding
-         "pmh2_refstr", "pmh3_refstr", "pmh3a_refstr", "pmh3_pair"]
+         "pmh2_refstr", "pmh3_refstr", "pmh3a_refstr", "pmh3_pair",
+         # 8-byte array keys behind the crate's identity hasher, hashed in place from differently aligned buffers
+         "smh_bytes8_no"]
 SKETCHER = {"smh": "SuperMinHash", "smh2": "SuperMinHash2", "ss": "SetSketcher", "dens": "OptDensMinHash",
             "rev": "RevOptDensMinHash", "ord2": "ProbOrdMinHash2", "pmh2": "ProbMinHash2", "pmh3": "ProbMinHash3",
             "pmh3a": "ProbMinHash3a", "pmh3asha": "ProbMinHash3aSha"}
@@ -191,7 +193,8 @@ def observe(chk, keys, tag, nproc=NPROC, full=False):
     # per process: 2 sequential instances + NTHREADS threads for every key, plus the interleaved pair (thread 100: item-wise
     # adapter kinds) and the instances constructed after an unrelated change_rng_seed (thread 101: ProbOrdMinHash2 keys)
     extra = 2 * sum(1 for k in keys if k["entry"] == "item" and not k["kind"].startswith(("dens", "rev", "ord2"))
-                    and not k["kind"].endswith(("_refstr", "_pair"))) \
+                    and not k["kind"].endswith(("_refstr", "_pair"))
+                    and not k["kind"].startswith("smh_bytes8")) \
         + sum(1 for k in keys if k["kind"].startswith("ord2"))
     want = nproc * ((2 + NTHREADS) * len(keys) + extra)
     if len(rows) != want:
